@@ -35,7 +35,7 @@ impl<'a> Tr<'a> {
         if inner_eff {
             Ok(self.mk_eff(t, ty, binds))
         } else {
-            Ok(Val { t, ty, binds, range: None, callres: false })
+            Ok(Val { t, ty, binds, range: None, callres: false, itercall: None })
         }
     }
 
@@ -193,6 +193,12 @@ impl<'a> Tr<'a> {
     }
 
     pub fn tr_closure1(&mut self, c: &syn::Expr, env: &Env, param_ty: Ty) -> R<(String, Val)> {
+        self.tr_closure1x(c, env, param_ty, false)
+    }
+
+    /// `allow_callres`: the body may be the result of a call to a `Result`-returning target (the
+    /// caller must then treat the whole value as something that may contain a panic).
+    pub fn tr_closure1x(&mut self, c: &syn::Expr, env: &Env, param_ty: Ty, allow_callres: bool) -> R<(String, Val)> {
         let cl = match Self::strip_refs(c) {
             syn::Expr::Closure(cl) => cl,
             _ => return self.unsup("a closure argument that is not written as a closure literal"),
@@ -229,7 +235,7 @@ impl<'a> Tr<'a> {
         let body = self.tr_expr(&cl.body, &env2, None);
         self.pure_only -= 1;
         let body = body?;
-        if body.eff() || body.callres {
+        if body.eff() || (body.callres && !allow_callres) || body.itercall.is_some() {
             return self.unsup("closure body may panic or return early");
         }
         Ok((lean_name, body))
@@ -242,7 +248,7 @@ impl<'a> Tr<'a> {
             E::Group(g) => self.tr_expr(&g.expr, env, expected),
             E::Reference(r) => {
                 if r.mutability.is_some() {
-                    return self.unsup("`&mut` borrow");
+                    return self.unsup("`&mut` borrow (only the subtag iterator may be passed on, as a call argument)");
                 }
                 self.tr_expr(&r.expr, env, expected)
             }
@@ -274,7 +280,7 @@ impl<'a> Tr<'a> {
                     return self.unsup("range bounds must be pure integers");
                 }
                 let incl = matches!(r.limits, syn::RangeLimits::Closed(_));
-                Ok(Val { t: String::new(), ty: Ty::Range, binds: vec![], range: Some((lo.t, hi.t, incl)), callres: false })
+                Ok(Val { t: String::new(), ty: Ty::Range, binds: vec![], range: Some((lo.t, hi.t, incl)), callres: false, itercall: None })
             }
             E::Field(f) => self.tr_field(f, env),
             E::Index(i) => self.tr_index(i, env),
@@ -282,6 +288,26 @@ impl<'a> Tr<'a> {
             E::Call(c) => self.tr_call(c, env, expected),
             E::Try(t) => {
                 let v = self.tr_expr(&t.expr, env, None)?;
+                if v.ty == Ty::FmtRes {
+                    // writing to the output buffer cannot fail
+                    return Ok(Val { ty: Ty::Unit, ..v });
+                }
+                if let (Some(d), Ty::ResPE(inner)) = (v.itercall, &v.ty) {
+                    // `v.t : Res (T × List Bytes)`: the value is the first component, the
+                    // iterator becomes the second
+                    self.effect_guard("`?`")?;
+                    if self.pure_only > 0 {
+                        return self.unsup("a call that advances the subtag iterator inside a closure or conditional operand");
+                    }
+                    let inner = (**inner).clone();
+                    let binds = v.binds.clone();
+                    let pair = self.mk_eff(v.t.clone(), inner.clone(), binds);
+                    if self.pending.iter().any(|(x, _)| *x == d) {
+                        return self.unsup("a second mutation of the subtag iterator in one expression");
+                    }
+                    self.pending.push((d, format!("{}.2", pair.t)));
+                    return Ok(Val { t: format!("{}.1", pair.t), ..pair });
+                }
                 match &v.ty {
                     Ty::ResPE(inner) => {
                         self.effect_guard("`?`")?;
@@ -313,7 +339,7 @@ impl<'a> Tr<'a> {
                 // a block-like expression used as an operand: everything in it must be pure
                 self.pure_only += 1;
                 let cell: std::cell::RefCell<Option<Ty>> = std::cell::RefCell::new(None);
-                let r = self.tr_tail(e, env, expected, false, &|me: &mut Tr, v: Val| {
+                let r = self.tr_tail(e, env, expected, false, &|me: &mut Tr, v: Val, _env: &Env| {
                     if v.callres {
                         return me.unsup("call result used as an operand");
                     }
@@ -342,9 +368,24 @@ impl<'a> Tr<'a> {
             E::Unsafe(_) => self.unsup("`unsafe` block"),
             E::Loop(_) | E::While(_) | E::ForLoop(_) => self.unsup("loop"),
             E::Assign(_) => self.unsup("assignment"),
-            E::Tuple(_) => self.unsup("tuple"),
+            E::Tuple(t) => {
+                if t.elems.is_empty() {
+                    return Ok(Val::pure_("()", Ty::Unit));
+                }
+                let exp_tys: Vec<Option<Ty>> = match expected {
+                    Some(Ty::Tuple(ts)) if ts.len() == t.elems.len() => ts.iter().cloned().map(Some).collect(),
+                    _ => t.elems.iter().map(|_| None).collect(),
+                };
+                let mut vals = Vec::new();
+                for (x, et) in t.elems.iter().zip(exp_tys.iter()) {
+                    vals.push(self.tr_expr(x, env, et.as_ref())?);
+                }
+                let ty = Ty::Tuple(vals.iter().map(|v| v.ty.clone()).collect());
+                self.lift(&vals, ty, false, &|a| format!("({})", a.join(", ")))
+            }
+            E::Array(a) if a.elems.is_empty() => Ok(Val::pure_("[]", Ty::List(Box::new(Ty::Infer)))),
             E::Array(_) => self.unsup("array literal"),
-            E::Struct(_) => self.unsup("struct literal"),
+            E::Struct(st) => self.tr_struct_lit(st, env),
             other => self.unsup(format!("expression `{}`", norm_tokens(other))),
         }
     }
@@ -364,7 +405,7 @@ impl<'a> Tr<'a> {
                 let op = if is_and { "&&" } else { "||" };
                 if !r.eff() {
                     // nothing can go wrong on the right: plain Boolean operator under the left's binds
-                    return Ok(Val { t: format!("({} {} {})", l.t, op, r.t), ty: Ty::Bool, binds: l.binds.clone(), range: None, callres: false });
+                    return Ok(Val { t: format!("({} {} {})", l.t, op, r.t), ty: Ty::Bool, binds: l.binds.clone(), range: None, callres: false, itercall: None });
                 }
                 self.effect_guard("an operand of &&/||")?;
                 let rc = r.comp();
@@ -419,22 +460,36 @@ impl<'a> Tr<'a> {
         }
     }
 
-    fn tr_field(&mut self, f: &syn::ExprField, env: &Env) -> R<Val> {
-        let base = self.tr_expr(&f.base, env, None)?;
-        if base.callres {
-            return self.unsup("field of a call result");
-        }
-        let name = match &base.ty {
+    /// A field of a value of type `base_ty`: (Lean projection, or `None` for the transparent `.0`
+    /// of a wrapper struct; the field's type).
+    pub fn field_info(&mut self, base_ty: &Ty, member: &syn::Member) -> R<(Option<String>, Ty)> {
+        let name = match base_ty {
             Ty::Named(n) => n.clone(),
+            Ty::Tuple(ts) => {
+                if let syn::Member::Unnamed(i) = member {
+                    let k = i.index as usize;
+                    if k < ts.len() {
+                        let proj = if ts.len() == 1 {
+                            String::new()
+                        } else if k + 1 == ts.len() {
+                            format!("{}2", "2.".repeat(k).trim_end_matches('.').to_string() + if k > 0 { "." } else { "" })
+                        } else {
+                            format!("{}1", "2.".repeat(k))
+                        };
+                        return Ok((Some(proj), ts[k].clone()));
+                    }
+                }
+                return self.unsup("tuple field");
+            }
             t => return self.unsup(format!("field access on {:?}", t)),
         };
-        match &f.member {
+        match member {
             syn::Member::Unnamed(i) => {
                 if i.index != 0 {
                     return self.unsup("tuple field other than .0");
                 }
                 match self.newtype_inner(&name)? {
-                    Some(inner) => Ok(Val { ty: inner, ..base }),
+                    Some(inner) => Ok((None, inner)),
                     None => self.unsup(format!(".0 on {}", name)),
                 }
             }
@@ -449,6 +504,9 @@ impl<'a> Tr<'a> {
                     None => return self.unsup(format!("{} has no field `{}`", name, fname)),
                 };
                 let lean_field = cfg.fields.iter().find(|(r, _, _)| *r == fname).map(|c| c.1).unwrap_or("?");
+                if lean_field == "-" || lean_field == "?" {
+                    return self.unsup(format!("field {}.{} is not modelled", name, fname));
+                }
                 // field types are written in the struct's file
                 let saved = self.file;
                 let saved_self = self.self_ty.clone();
@@ -457,9 +515,20 @@ impl<'a> Tr<'a> {
                 let ty = self.resolve_ty(&fty);
                 self.file = saved;
                 self.self_ty = saved_self;
-                let ty = ty?;
-                self.lift(&[base], ty, false, &|a| format!("({}.{})", a[0], lean_field))
+                Ok((Some(lean_field.to_string()), ty?))
             }
+        }
+    }
+
+    fn tr_field(&mut self, f: &syn::ExprField, env: &Env) -> R<Val> {
+        let base = self.tr_expr(&f.base, env, None)?;
+        if base.callres {
+            return self.unsup("field of a call result");
+        }
+        let (lf, ty) = self.field_info(&base.ty, &f.member)?;
+        match lf {
+            None => Ok(Val { ty, ..base }),
+            Some(lean_field) => self.lift(&[base], ty, false, &|a| format!("({}.{})", a[0], lean_field)),
         }
     }
 
@@ -535,8 +604,129 @@ impl<'a> Tr<'a> {
                 }
                 Ok(Val::pure_(bytes_lit(bs), Ty::Tiny(n)))
             }
+            "vec" => {
+                if !m.tokens.is_empty() {
+                    return self.unsup("`vec![..]` with elements");
+                }
+                Ok(Val::pure_("[]", Ty::List(Box::new(Ty::Infer))))
+            }
+            "write" => {
+                let (d, nv) = self.tr_write_macro(m, _env)?;
+                if self.pure_only > 0 {
+                    return self.unsup("`write!` inside a closure or conditional operand");
+                }
+                if self.pending.iter().any(|(x, _)| *x == d) {
+                    return self.unsup("a second write to the formatter in one expression");
+                }
+                self.pending.push((d, nv));
+                Ok(Val::pure_("()", Ty::FmtRes))
+            }
             _ => self.unsup(format!("macro `{}!`", name)),
         }
+    }
+
+    /// `Default::default()` of a type, written out (nothing is taken from the Lean structure's
+    /// own defaults).
+    pub fn default_term(&mut self, ty: &Ty) -> R<String> {
+        match ty {
+            Ty::Opt(_) => Ok("none".into()),
+            Ty::List(_) | Ty::Map | Ty::IterB => Ok("[]".into()),
+            Ty::Bool => Ok("false".into()),
+            Ty::Usize | Ty::U8 | Ty::Int => Ok("0".into()),
+            Ty::Named(n) => {
+                let n = n.clone();
+                if let Some(nt) = self.reg.newtype(&n)? {
+                    if !nt.derives.iter().any(|d| d == "Default") {
+                        return self.unsup(format!("`{}::default()`: `Default` is not derived", n));
+                    }
+                    let inner = self.newtype_inner(&n)?.unwrap();
+                    return self.default_term(&inner);
+                }
+                if let Some((cfg, info)) = self.reg.record(&n)? {
+                    if !info.derives.iter().any(|d| d == "Default") {
+                        return self.unsup(format!("`{}::default()`: `Default` is not derived", n));
+                    }
+                    let mut parts = Vec::new();
+                    for (fname, fty) in &info.fields {
+                        let c = cfg.fields.iter().find(|(r, _, _)| r == fname).unwrap();
+                        if c.1 == "-" {
+                            continue;
+                        }
+                        let saved = self.file;
+                        let saved_self = self.self_ty.clone();
+                        self.file = cfg.file;
+                        self.self_ty = Some(n.clone());
+                        let t = self.resolve_ty(fty);
+                        self.file = saved;
+                        self.self_ty = saved_self;
+                        let t = t?;
+                        parts.push(format!("{} := {}", c.1, self.default_term(&t)?));
+                    }
+                    return Ok(format!("({{ {} }} : {})", parts.join(", "), cfg.lean));
+                }
+                self.unsup(format!("`{}::default()`", n))
+            }
+            t => self.unsup(format!("`default()` of {:?}", t)),
+        }
+    }
+
+    fn tr_struct_lit(&mut self, st: &syn::ExprStruct, env: &Env) -> R<Val> {
+        if st.rest.is_some() || st.qself.is_some() {
+            return self.unsup("struct literal with `..rest`");
+        }
+        let name = st.path.segments.last().map(|s| s.ident.to_string()).unwrap_or_default();
+        let name = if name == "Self" { self.self_ty.clone().unwrap_or_default() } else { name };
+        let ty = self.named(&name)?;
+        let (cfg, info) = match self.reg.record(&name)? {
+            Some(x) => x,
+            None => return self.unsup(format!("struct literal of {}", name)),
+        };
+        let mut vals: Vec<Val> = Vec::new();
+        let mut lean_fields: Vec<String> = Vec::new();
+        let mut seen: Vec<String> = Vec::new();
+        for fv in &st.fields {
+            let fname = match &fv.member {
+                syn::Member::Named(i) => i.to_string(),
+                _ => return self.unsup("positional field in a struct literal"),
+            };
+            let c = match cfg.fields.iter().find(|(r, _, _)| *r == fname) {
+                Some(c) => c,
+                None => return self.unsup(format!("{} has no field `{}` in the model", name, fname)),
+            };
+            if c.1 == "-" {
+                return self.unsup(format!("field {}.{} is not modelled", name, fname));
+            }
+            let fty = match info.fields.iter().find(|(n, _)| *n == fname) {
+                Some((_, t)) => t.clone(),
+                None => return self.unsup(format!("{} has no field `{}`", name, fname)),
+            };
+            let saved = self.file;
+            let saved_self = self.self_ty.clone();
+            self.file = cfg.file;
+            self.self_ty = Some(name.clone());
+            let want = self.resolve_ty(&fty);
+            self.file = saved;
+            self.self_ty = saved_self;
+            let want = want?;
+            let v = self.tr_expr(&fv.expr, env, Some(&want))?;
+            if v.callres {
+                return self.unsup("call result stored in a struct");
+            }
+            self.check_compat(&v.ty, &want)?;
+            vals.push(v);
+            lean_fields.push(c.1.to_string());
+            seen.push(fname);
+        }
+        for (r, l, _) in cfg.fields {
+            if *l != "-" && !seen.iter().any(|s| s == r) {
+                return self.unsup(format!("struct literal of {} without field `{}`", name, r));
+            }
+        }
+        let lean = cfg.lean;
+        self.lift(&vals, ty, false, &|a| {
+            let parts: Vec<String> = lean_fields.iter().zip(a.iter()).map(|(f, t)| format!("{} := {}", f, t)).collect();
+            format!("({{ {} }} : {})", parts.join(", "), lean)
+        })
     }
 
     fn tr_call(&mut self, c: &syn::ExprCall, env: &Env, expected: Option<&Ty>) -> R<Val> {
@@ -544,7 +734,12 @@ impl<'a> Tr<'a> {
             syn::Expr::Path(p) if p.qself.is_none() => p,
             _ => return self.unsup("call of something that is not a path"),
         };
-        let segs: Vec<String> = p.path.segments.iter().map(|s| s.ident.to_string()).collect();
+        let mut segs: Vec<String> = p.path.segments.iter().map(|s| s.ident.to_string()).collect();
+        // `subtags::Language::from_bytes`, `parser::parse_language_identifier_from_iter`: module
+        // prefixes (lower-case segments before the last one or two) carry no meaning here
+        while segs.len() > 1 && segs[0].chars().next().map(|c| c.is_lowercase()).unwrap_or(false) && segs[0] != "char" {
+            segs.remove(0);
+        }
         let args: Vec<&syn::Expr> = c.args.iter().collect();
         let one = |me: &Self| -> R<()> {
             if args.len() != 1 {
@@ -621,8 +816,21 @@ impl<'a> Tr<'a> {
                 return Ok(Val { ty: Ty::Char, ..v });
             }
             let tyname = if ty == "Self" { self.self_ty.clone().unwrap_or_default() } else { ty.to_string() };
+            if f == "default" && args.is_empty() && tyname != "Default" {
+                let t = self.named(&tyname)?;
+                let term = self.default_term(&t)?;
+                return Ok(Val::pure_(term, t));
+            }
+            if (tyname == "Vec" && f == "new") && args.is_empty() {
+                return Ok(Val::pure_("[]", Ty::List(Box::new(Ty::Infer))));
+            }
             // enum variant with payload
-            if tyname == "ParserError" || self.reg.model_enum(&tyname)?.is_some() {
+            let is_variant = tyname == "ParserError"
+                || match self.reg.model_enum(&tyname)? {
+                    Some((cfg, _)) => cfg.variants.iter().any(|(r, _, _)| *r == f),
+                    None => false,
+                };
+            if is_variant {
                 let mut vals = Vec::new();
                 for a in &args {
                     vals.push(self.tr_expr(a, env, None)?);
@@ -667,6 +875,19 @@ impl<'a> Tr<'a> {
         let tgt = config::TARGETS.iter().find(|t| {
             t.func == func && t.imp == imp && (imp.is_some() || t.file == self.file)
         });
+        // a free function of another file (`parser::parse_locale`): by name, if unambiguous
+        let tgt = match tgt {
+            Some(t) => Some(t),
+            None if imp.is_none() => {
+                let c: Vec<&config::Target> = config::TARGETS.iter().filter(|t| t.func == func && t.imp.is_none()).collect();
+                if c.len() == 1 {
+                    Some(c[0])
+                } else {
+                    None
+                }
+            }
+            None => None,
+        };
         let tgt = match tgt {
             Some(t) => t,
             None => {
@@ -693,7 +914,37 @@ impl<'a> Tr<'a> {
         if let Some(r) = recv {
             vals.push(r);
         }
-        for a in args {
+        if sig.mut_self {
+            return self.unsup(format!("call of {} which changes its receiver", tgt.lean));
+        }
+        let mut iter_decl: Option<u32> = None;
+        for (i, a) in args.iter().enumerate() {
+            let pi = vals.len();
+            if sig.iter_param == Some(pi) {
+                // the subtag iterator: a variable, passed as `iter` or `&mut iter`
+                let _ = i;
+                let mut x: &syn::Expr = a;
+                loop {
+                    match x {
+                        syn::Expr::Reference(r) => x = &r.expr,
+                        syn::Expr::Paren(p) => x = &p.expr,
+                        syn::Expr::Group(p) => x = &p.expr,
+                        _ => break,
+                    }
+                }
+                let n = match x {
+                    syn::Expr::Path(p) if p.path.segments.len() == 1 => p.path.segments[0].ident.to_string(),
+                    _ => return self.unsup("the subtag iterator argument is not a variable"),
+                };
+                match (env.decl_of(&n), env.get(&n)) {
+                    (Some(d), Some(v)) if v.ty == Ty::IterB => {
+                        iter_decl = Some(d);
+                        vals.push(v.clone());
+                    }
+                    _ => return self.unsup(format!("`{}` is not a subtag iterator", n)),
+                }
+                continue;
+            }
             vals.push(self.tr_expr(a, env, None)?);
         }
         if vals.len() != sig.params.len() {
@@ -715,6 +966,12 @@ impl<'a> Tr<'a> {
         let mut out = self.lift(&vals, ret, false, &|a| format!("({} {})", name, a.join(" ")))?;
         if sig.mode == Mode::Res {
             out.callres = true;
+        }
+        if sig.iter_param.is_some() {
+            if sig.mode != Mode::Res || iter_decl.is_none() {
+                return self.unsup("internal: iterator-threading callee");
+            }
+            out.itercall = iter_decl;
         }
         Ok(out)
     }
